@@ -364,6 +364,12 @@ func (x *Exec) instr(st *State, fr *Frame, b *ssa.BasicBlock, i int, in ssa.Inst
 			return true
 		}
 		c := x.get(st, fr, v.Cond).(Term)
+		if c.S != "true" && c.S != "false" && x.mergeOn(st) {
+			if j := joinOf(b); j != nil {
+				x.mergedIf(st, b, j, c)
+				return true
+			}
+		}
 		switch c.S {
 		case "true":
 			x.enterBlock(st, b, b.Succs[0])
@@ -986,6 +992,11 @@ func isLoopHeader(b *ssa.BasicBlock) bool {
 func (x *Exec) enterBlock(st *State, from, to *ssa.BasicBlock) {
 	fr := st.top()
 	fr.prev = from
+	if n := len(fr.stops); n > 0 && fr.stops[n-1].at == to {
+		// speculative branch execution reached the join block
+		*fr.stops[n-1].col = append(*fr.stops[n-1].col, st)
+		return
+	}
 	if isLoopHeader(to) {
 		back := to.Dominates(from)
 		n := loopOrdinal(fr.fn, to)
@@ -1363,4 +1374,215 @@ func silentDiamond(b *ssa.BasicBlock) *ssa.BasicBlock {
 	}
 	// the condition value itself may have been computed by calls before; that is fine
 	return j
+}
+
+
+// ---------- path merging at simple if-joins (opt-in: contract flag `merge`) ----------
+
+func (x *Exec) mergeOn(st *State) bool {
+	c := st.frames[0].contract
+	return c != nil && hasFlag(c, "merge") && len(st.frames) == 1
+}
+
+// joinOf: b ends in an If whose branches rejoin at one block (if-then or if-then-else
+// without phis at the join and without loops inside).
+func joinOf(b *ssa.BasicBlock) *ssa.BasicBlock {
+	if len(b.Succs) != 2 {
+		return nil
+	}
+	t, f := b.Succs[0], b.Succs[1]
+	one := func(x *ssa.BasicBlock) *ssa.BasicBlock {
+		if len(x.Preds) == 1 && len(x.Succs) == 1 && !isLoopHeader(x) && !isLoopHeader(x.Succs[0]) {
+			return x.Succs[0]
+		}
+		return nil
+	}
+	var j *ssa.BasicBlock
+	switch {
+	case one(t) != nil && one(t) == f && !isLoopHeader(f):
+		j = f
+	case one(f) != nil && one(f) == t && !isLoopHeader(t):
+		j = t
+	case one(t) != nil && one(t) == one(f):
+		j = one(t)
+	default:
+		return nil
+	}
+	for _, in := range j.Instrs {
+		if _, ok := in.(*ssa.Phi); ok {
+			return nil
+		}
+	}
+	return j
+}
+
+func (x *Exec) mergedIf(st *State, b, j *ssa.BasicBlock, c Term) {
+	base := len(st.pc)
+	depth := len(st.frames)
+	var arrived []*State
+	rec := &stopRec{at: j, col: &arrived}
+	pathsBefore := x.paths
+	run := func(s *State, cond Term, succ *ssa.BasicBlock) {
+		s.assume(cond)
+		fr := s.top()
+		fr.stops = append(fr.stops, rec)
+		if succ == j {
+			fr.prev = b
+			arrived = append(arrived, s)
+			return
+		}
+		x.enterBlock(s, b, succ)
+	}
+	st2 := x.fork(st)
+	run(st, c, b.Succs[0])
+	run(st2, Not(c), b.Succs[1])
+	pop := func(s *State) {
+		fr := s.top()
+		if n := len(fr.stops); n > 0 && fr.stops[n-1] == rec {
+			fr.stops = fr.stops[:n-1]
+		}
+	}
+	for _, s := range arrived {
+		pop(s)
+	}
+	_ = pathsBefore
+	if len(arrived) == 2 && len(arrived[0].frames) == depth && len(arrived[1].frames) == depth {
+		if m := x.mergeStates(arrived[0], arrived[1], base); m != nil {
+			x.paths-- // the two paths continue as one
+			x.note(&x.abstract, "paths are merged at simple if-joins (ite over the branch condition)")
+			x.runFrom(m, j, 0)
+			return
+		}
+	}
+	for _, s := range arrived {
+		x.runFrom(s, j, 0)
+	}
+}
+
+// mergeStates: a and b descend from one state (common pc prefix of length base);
+// a took the branch condition a.pc[base], b its negation.
+func (x *Exec) mergeStates(a, b *State, base int) *State {
+	if len(a.pc) <= base || len(b.pc) <= base {
+		return nil
+	}
+	c := a.pc[base]
+	if Not(c).S != b.pc[base].S {
+		return nil
+	}
+	fa, fb := a.top(), b.top()
+	if len(fa.defers) != len(fb.defers) || len(fa.loopOn) != len(fb.loopOn) {
+		return nil
+	}
+	m := a.clone()
+	m.pc = append([]Term(nil), a.pc[:base]...)
+	m.assume(Imp(c, And(a.pc[base+1:]...)))
+	m.assume(Imp(Not(c), And(b.pc[base+1:]...)))
+	// heap
+	for name, ta := range a.heap {
+		tb, ok := b.heap[name]
+		if !ok {
+			tb = x.declare(name+"@0", ta.Sort)
+		}
+		if ta.S != tb.S {
+			m.heap[name] = Ite(c, ta, tb)
+		}
+	}
+	for name, tb := range b.heap {
+		if _, ok := a.heap[name]; !ok {
+			ta := x.declare(name+"@0", tb.Sort)
+			if ta.S != tb.S {
+				m.heap[name] = Ite(c, ta, tb)
+			} else {
+				m.heap[name] = tb
+			}
+		}
+	}
+	// cells
+	for id, ca := range a.cells {
+		cb, ok := b.cells[id]
+		if !ok {
+			continue
+		}
+		if ca.spilled != cb.spilled {
+			return nil
+		}
+		if ca.spilled {
+			if ca.ref.S != cb.ref.S {
+				return nil
+			}
+			continue
+		}
+		mv, ok := mergeVal(c, ca.V, cb.V)
+		if !ok {
+			return nil
+		}
+		m.cells[id].V = mv
+	}
+	for id, cb := range b.cells {
+		if _, ok := a.cells[id]; !ok {
+			cc := *cb
+			m.cells[id] = &cc
+		}
+	}
+	// allocation watermark: at least both
+	wa, wb := a.wmNow(), b.wmNow()
+	if wa.S != wb.S {
+		n := m.fresh("wm", SI)
+		m.assume(And(Ge(n, wa), Ge(n, wb)))
+		m.wm = n
+		m.nalloc = 0
+	}
+	if b.steps > m.steps {
+		m.steps = b.steps
+	}
+	return m
+}
+
+func mergeVal(c Term, a, b Val) (Val, bool) {
+	switch va := a.(type) {
+	case Term:
+		vb, ok := b.(Term)
+		if !ok || va.Sort != vb.Sort {
+			return nil, false
+		}
+		return Ite(c, va, vb), true
+	case *StructVal:
+		vb, ok := b.(*StructVal)
+		if !ok || len(va.F) != len(vb.F) {
+			return nil, false
+		}
+		out := &StructVal{T: va.T, F: make([]Val, len(va.F))}
+		for i := range va.F {
+			if va.F[i] == nil && vb.F[i] == nil {
+				continue
+			}
+			mv, ok := mergeVal(c, va.F[i], vb.F[i])
+			if !ok {
+				return nil, false
+			}
+			out.F[i] = mv
+		}
+		return out, true
+	case nil:
+		if b == nil {
+			return nil, true
+		}
+		return nil, false
+	case *PLocal:
+		vb, ok := b.(*PLocal)
+		if ok && vb.Cell == va.Cell && len(vb.Path) == len(va.Path) {
+			return a, true
+		}
+		return nil, false
+	case *PRef:
+		vb, ok := b.(*PRef)
+		if ok && len(va.Path) == 0 && len(vb.Path) == 0 {
+			return &PRef{Ref: Ite(c, va.Ref, vb.Ref), Root: va.Root}, true
+		}
+		return nil, false
+	}
+	if a == b {
+		return a, true
+	}
+	return nil, false
 }
